@@ -268,7 +268,13 @@ func SpecSchema(a *SpecAPI, version int16, response bool) (kty.Ty, bool, error) 
 		return kty.Ty{}, false, fmt.Errorf("version %d outside %d..%d", version, min, max)
 	}
 	flexible := flex >= 0 && version >= flex
-	return kty.SpecTy(t, version, flexible, false, RecordVersion(a.Key, version)), flexible, nil
+	ty := kty.SpecTy(t, version, flexible, false, RecordVersion(a.Key, version))
+	if flexible && ty.K == "struct" {
+		// flexible versions: the message header ends with a tag buffer, which a reader that takes
+		// the body to start after the client id / correlation id meets first
+		ty.Fields = append([]kty.Field{{Name: "_headerTags", T: kty.Ty{K: "tags"}}}, ty.Fields...)
+	}
+	return ty, flexible, nil
 }
 
 // make sure the protocol package (encoder) is linked where only kobs is imported
